@@ -423,29 +423,95 @@ def wrap(app):
 
 
 def unwrap_ok(line):
-    """`OK ('"Ok" <tree>)` -> <tree>"""
-    m = re.match(r"^OK \('\"Ok\" (.*)\)$", line)
-    return m.group(1) if m else None
+    """the contract wrapper returns the payload of its 'Ok: `OK <tree>` -> <tree>"""
+    return line[3:] if line.startswith("OK ") else None
+
+
+def run_robust(exe, lines, timeout=1800, shards=None, cache=False):
+    """Like core.run_sharded, but survives an aborting harness process (stack overflow inside the
+    interpreter kills the process): the line being processed is answered `ERR Crash` and the shard
+    is restarted after it."""
+    import concurrent.futures as cf
+    import subprocess
+    shards = shards or core.NPROC
+    n = len(lines)
+    if n == 0:
+        return []
+    key = None
+    if cache:
+        # the answers are a pure function of (harness binary, input lines): the binary is rebuilt from
+        # /repo's working tree by cargo before every run and embeds the stdlib
+        import hashlib
+        import json
+        h = hashlib.sha256()
+        h.update(open(exe, "rb").read())
+        h.update("\n".join(lines).encode())
+        key = os.path.join(core.BUILD, "c01cache", h.hexdigest()[:24] + ".json")
+        if os.path.exists(key):
+            try:
+                got = json.load(open(key))
+                if len(got) == n:
+                    return got
+            except Exception:
+                pass
+    size = (n + shards - 1) // shards
+    chunks = [lines[i:i + size] for i in range(0, n, size)]
+
+    def run_chunk(chunk):
+        out = []
+        i = 0
+        while i < len(chunk):
+            p = subprocess.run([exe], input="\n".join(chunk[i:]) + "\n", timeout=timeout,
+                               stdout=subprocess.PIPE, stderr=subprocess.PIPE, text=True, errors="replace")
+            got = p.stdout.split("\n")
+            if got and got[-1] == "":
+                got = got[:-1]
+            got = got[:len(chunk) - i]
+            out += got
+            i += len(got)
+            if i < len(chunk):
+                out.append("ERR Crash -- harness process died (rc=%s): %s" % (p.returncode, p.stderr.strip().replace("\n", " ")[-120:]))
+                i += 1
+        return out
+
+    with cf.ThreadPoolExecutor(max_workers=len(chunks)) as ex:
+        res = list(ex.map(run_chunk, chunks))
+    res = [x for c in res for x in c]
+    if key:
+        import json
+        os.makedirs(os.path.dirname(key), exist_ok=True)
+        with open(key + ".tmp", "w") as f:
+            json.dump(res, f)
+        os.replace(key + ".tmp", key)
+    return res
 
 
 def dynamic_table(exe, table, tokens, tier):
     import itertools
+    exempt_names = exempt_ops()
     cases = []          # (name, kinds tuple, program)
     for row in table:
         n = row["nargs"]
         args_t = row["args"]
         per_pos_inh = [[k for k in KINDS if inhabits(k, t)] for t in args_t]
-        if n <= 2:
-            vectors = list(itertools.product(KINDS, repeat=n))
-        else:
-            vs = set(itertools.product(*per_pos_inh))
-            base = tuple((p[0] if p else "KNull") for p in per_pos_inh)
-            for i in range(n):
-                for k in KINDS:
-                    v = list(base)
-                    v[i] = k
-                    vs.add(tuple(v))
-            vectors = sorted(vs)
+        # every vector that inhabits the static argument types (the theorem needs all of them), and
+        # for the negative space every single-position deviation from the first inhabiting vector
+        # (informational: shows that the dynamic dispatch does reject something)
+        exempt = row["name"] in exempt_names
+        inh = list(itertools.product(*per_pos_inh))
+        if exempt and len(inh) > 24:
+            inh = inh[:1]
+        vs = set(inh)
+        base = tuple((p[0] if p else "KNull") for p in per_pos_inh)
+        for i in range(n):
+            for k in KINDS:
+                v = list(base)
+                v[i] = k
+                vs.add(tuple(v))
+        if tier == "thorough" and n <= 2:
+            vs |= set(itertools.product(KINDS, repeat=n))
+        vectors = sorted(vs)
+        inh = set(inh)
         lazy_args = [inhabitant_for_lazy(t) for t in row["lazy"]]
         for ks in vectors:
             reps = [reps_for(k, t) for k, t in zip(ks, args_t)]
@@ -453,7 +519,7 @@ def dynamic_table(exe, table, tokens, tier):
                 continue
             combos = [tuple(r[0] for r in reps)]
             for i, r in enumerate(reps):
-                for alt in r[1:]:
+                for alt in (r[1:] if ks in inh else []):
                     c = list(combos[0])
                     c[i] = alt
                     combos.append(tuple(c))
@@ -464,27 +530,53 @@ def dynamic_table(exe, table, tokens, tier):
                 rest = lazy_args[max(0, nsrc - len(args)):]
                 if rest:
                     app = "(%s) %s" % (app, " ".join(rest))
-                cases.append((row["name"], ks, wrap(app)))
-    lines = ["ev,notc,full,fuel=200000\t" + p.replace("\\", "\\\\").replace("\n", "\\n") for (_, _, p) in cases]
-    rc, out, err = core.run_sharded(exe, [], lines, timeout=1500)
-    if rc != 0:
-        raise TranslatorError("harness c01 ev failed rc=%s %s" % (rc, err[-500:]))
+                cases.append((row["name"], ks, wrap(app), args, rest_all(lazy_args)))
+    lines = ["ev,notc,full,fuel=200000\t" + esc(c[2]) for c in cases]
+    out = run_robust(exe, lines, cache=(tier != "thorough"))
+    if len(out) != len(lines):
+        raise TranslatorError("harness c01 ev produced %d lines for %d inputs" % (len(out), len(lines)))
     dyn = {}
-    for (name, ks, prog), line in zip(cases, out):
+    for (name, ks, prog, args, lazies), line in zip(cases, out):
         d = dyn.setdefault(name, {}).setdefault(ks, {"errs": set(), "kinds": set(), "progs": []})
         m = CLASS_RE.match(line)
         if m:
             d["errs"].add(m.group(1))
-            d["progs"].append((prog, line[:160]))
+            d["progs"].append((prog, line[:160], args, lazies))
         else:
             inner = unwrap_ok(line)
             k = kind_of_tree(inner) if inner is not None else None
             if k is None:
                 d["errs"].add("Unreadable")
-                d["progs"].append((prog, line[:160]))
+                d["progs"].append((prog, line[:160], args, lazies))
             else:
                 d["kinds"].add(k)
     return dyn, len(cases)
+
+
+def rest_all(l):
+    return list(l)
+
+
+def esc(p):
+    return p.replace("\\", "\\\\").replace("\n", "\\n").replace("\t", " ")
+
+
+def witness_program(row, args, lazies, tokens):
+    """A typed-block program applying the primop to the failing representatives: operands whose
+    static type is Dyn are cast with `| Dyn` (typed code has no implicit upcast to Dyn)."""
+    def cast(a, t):
+        return "(%s | Dyn)" % a if t == "dyn" else a
+    cargs = [cast(a, t) for a, t in zip(args, row["args"])]
+    lz = [cast(a, t) for a, t in zip(lazies, row["lazy"])]
+    nsrc = row["arity_src"]
+    app = spell(row["name"], cargs + lz[:max(0, nsrc - len(cargs))], tokens)
+    rest = lz[max(0, nsrc - len(cargs)):]
+    if rest:
+        app = "(%s) %s" % (app, " ".join(rest))
+    prog = "((%s) : _)" % app
+    if "LBL" in prog:
+        prog = "(null | %%contract/custom%% (fun LBL _v => 'Ok (%s | Dyn)))" % prog
+    return prog
 
 
 def inhabitant_for_lazy(t):
@@ -539,7 +631,7 @@ def write_gen(table, dyn):
 # ------------------------------------------------------------------ python re-check (for the search)
 
 EXEMPT_RE = re.compile(r"Definition exempt_ops : list string :=\s*\[(.*?)\]\.", re.S)
-TYPE_ERR = {"TypeErr", "NotAFunc", "NonExhaustive", "UnboundId", "Panic", "Internal", "NotEnoughArgs", "Unreadable"}
+TYPE_ERR = {"TypeErr", "NotAFunc", "NonExhaustive", "UnboundId", "Internal", "NotEnoughArgs", "Unreadable"}
 
 
 def exempt_ops():
